@@ -11,6 +11,7 @@ import (
 	"fmt"
 	"runtime/debug"
 	"sync"
+	"verif/core"
 
 	"github.com/xuperchain/xupercore/verifshim/vhook"
 	"github.com/xuperchain/xupercore/verifshim/vsync"
@@ -23,14 +24,18 @@ func init() {
 
 // Outcome of one execution.
 type Outcome struct {
-	Choices    []int    // choice index at every scheduling point
-	Points     []PointInfo
-	Deadlock   bool
-	Livelock   bool
-	Panics     []string
-	Blocked    []string // descriptions of threads blocked at deadlock
-	Steps      int
-	Trace      []string // thread/op at every point (only when Record is set)
+	Choices  []int // choice index at every scheduling point
+	Points   []PointInfo
+	Deadlock bool
+	Livelock bool
+	Panics   []string
+	Blocked  []string // descriptions of threads blocked at deadlock
+	Steps    int
+	Trace    []string // thread/op at every point (only when Record is set)
+	// Diverged is set when a prescribed prefix asks for a choice that does not
+	// exist at its point (a recorded schedule replayed on another tree, or
+	// nondeterminism): the execution is abandoned like a deadlock would be.
+	Diverged string
 }
 
 // PointInfo describes one scheduling point.
@@ -201,7 +206,10 @@ func (e *Exec) schedule(prev *thread) {
 	if n < len(e.prefix) {
 		idx = e.prefix[n]
 		if idx >= len(enabled) {
-			panic(fmt.Sprintf("vsched: replay divergence at point %d: choice %d of %d enabled", n, idx, len(enabled)))
+			// not a panic: we hold e.mu and the recovering thread would lock it again
+			e.out.Diverged = fmt.Sprintf("vsched: replay divergence at point %d: choice %d of %d enabled", n, idx, len(enabled))
+			e.finish()
+			return
 		}
 	}
 	runningEnabled := len(enabled) > 0 && prev != nil && enabled[0] == prev
@@ -322,6 +330,13 @@ func (x *Explorer) runOne(prefix []int, push func([]int)) {
 	}
 	in := x.New()
 	out := RunFiltered(in.Bodies, prefix, x.Horizon, false, in.Filter)
+	if out.Diverged != "" {
+		// a prefix the explorer derived itself no longer fits: nondeterminism the scheduler does not own
+		if in.Cleanup != nil {
+			in.Cleanup()
+		}
+		core.HarnessError("%s (prefix %v)", out.Diverged, prefix)
+	}
 	msgs := in.Check(out)
 	if in.Cleanup != nil {
 		in.Cleanup()
